@@ -115,11 +115,13 @@ theorem runScan_commentLine (v : String) (rest : List Token) (syms : SymTab) :
       subst hx; simp))
   simpa [Line.flat] using this
 
-/-- after the labels of a line a colon: the scanner skips the rest of the line -/
-theorem slab_colon (rest : List Token) (lb : List String) (syms : SymTab) :
-    scanLabels colonTok rest lb syms = scanConsumeLine colonTok rest syms := by
+/-- after a label a colon: the scanner goes on reading labels (as the parser and the FOR
+    expander do) -/
+theorem slab_colon (t : Token) (r : List Token) (lb : List String) (syms : SymTab)
+    (ht : t.typ ≠ .eof) :
+    scanLabels colonTok (t :: r) lb syms = scanLabels t r lb syms := by
   rw [scanLabels.eq_def]
-  simp [colonTok]
+  simp [colonTok, ht]
 
 /-- an instruction line: labels (each optionally followed by a colon), the opcode, the operands -/
 theorem runSLab_stmt (op : String) (hop : IsOpName op) (args : List Token)
@@ -158,18 +160,18 @@ theorem runSLab_stmt (op : String) (hop : IsOpName op) (args : List Token)
       rw [runSLab, slab_label _ _ _ _ _ (isLabelTok_of_name hl0) hxe]
       exact hrec
     | true =>
-      simp only [labelTokens, if_true, List.cons_append, List.nil_append, runSLab]
-      rw [slab_label _ _ _ _ _ (isLabelTok_of_name hl0) (by simp [colonTok]), slab_colon]
-      have := runSCL_line (colonTok :: (labelTokens r ++ (⟨.text, op⟩ : Token) :: args)) nlTok rest syms
-        (fun x hx => by
-          rcases List.mem_cons.1 hx with rfl | hx
-          · exact inLine_colon
-          · rcases List.mem_append.1 hx with hx | hx
-            · exact inLine_labelTokens r x hx
-            · rcases List.mem_cons.1 hx with rfl | hx
-              · exact inLine_text op
-              · exact ha x hx) rfl
-      simpa [runSCL] using this
+      obtain ⟨x, xs, hx, hxm⟩ := exists_cons' (labelTokens r) (⟨.text, op⟩ : Token)
+        (args ++ nlTok :: rest)
+      have hxe : x.typ ≠ .eof := by
+        rcases hxm with rfl | hxm
+        · simp
+        · exact (inLine_labelTokens r x hxm).2.1
+      have hrec := ih (lb ++ [l]) hr
+      simp only [labelTokens, if_true, List.cons_append, List.nil_append]
+      rw [hx] at hrec ⊢
+      rw [runSLab, slab_label _ _ _ _ _ (isLabelTok_of_name hl0) (by simp [colonTok]),
+        slab_colon _ _ _ _ hxe]
+      exact hrec
 
 theorem stmt_tokens_eq (s : Stmt) (rest : List Token) :
     s.tokens ++ rest =
